@@ -8,6 +8,7 @@ package main
 
 import (
 	"fmt"
+	"google.golang.org/protobuf/encoding/protowire"
 	"math/rand"
 	"reflect"
 	"sync"
@@ -136,18 +137,29 @@ var concEmptyTypes = new(protoregistry.Types)
 func engineConc(rep *Report) {
 	subs := allSubjects()
 	rounds := perType(6, 120)
-	const G = 16
 	ops := concOps()
+	deepDone := 0
 	for ti, s := range subs {
 		tn := string(s.FullName)
 		rep.Types = append(rep.Types, tn)
 		d := s.Zero.ProtoReflect().Descriptor()
-		for round := 0; round < rounds; round++ {
+		cycles := findCycles(d)
+		nrounds := rounds
+		if len(cycles) > 0 && mineCase(ti, rounds) && deepDone < 3 {
+			nrounds++ // one more round on a deeply nested shared message (a few types per process)
+			deepDone++
+		}
+		for round := 0; round < nrounds; round++ {
 			round := round
+			deep := round == rounds
 			if !mineCase(ti, round) {
 				continue
 			}
 			guardCase(rep, "C11", "conc", tn, round, func() {
+				G := 16
+				if deep {
+					G = 64
+				}
 				seed := caseSeed(*flagSeed, tn, round, "conc")
 				o := defaultGen()
 				o.NoSNaN = true
@@ -177,14 +189,33 @@ func engineConc(rep *Report) {
 					shared = proto.Clone(BuildStruct(s.Zero, v))
 					other = BuildStruct(s.Zero, v2)
 				}
-				if round%5 == 4 {
+				ops := ops
+				if deep {
+					// a shared message nested 400 levels deep (well inside every limit) read by 64 goroutines: all in-flight
+					// calls together hold well over ten thousand nested frames
+					shared = newOf(s.Zero)
+					if err := proto.Unmarshal(nestChain(cycles[0], 400), shared); err != nil {
+						return
+					}
+					other = newOf(s.Zero)
+					var sel []concOp
+					for _, o := range ops {
+						switch o.name {
+						case "Size", "Marshal(det)", "Equal", "Clone(from)":
+							sel = append(sel, o)
+						}
+					}
+					ops = sel
+					rep.Count("C11", "deep-shared-message-rounds", 1)
+				}
+				if round%5 == 4 && !deep {
 					// empty-but-allocated containers: a read path that "normalises" them writes to the struct
 					nilToEmpty(reflect.ValueOf(shared), 0)
 				}
 				// view objects obtained once and shared by all readers (not in round 0: the first use of the type stays concurrent)
 				var views []protoreflect.Value
 				var viewFDs []FD
-				if round > 0 {
+				if round > 0 && !deep {
 					sr := shared.ProtoReflect()
 					for i := 0; i < d.Fields().Len(); i++ {
 						fd := d.Fields().Get(i)
@@ -207,7 +238,18 @@ func engineConc(rep *Report) {
 					}
 					return out
 				}
-				concAny = &anypb.Any{TypeUrl: "/" + tn, Value: SpecEncode(v)}
+				// (the packed value first carries every singular bytes field once as present-but-empty: a decoder that
+				// keeps a slice of its input for it writes into the shared Any when the field occurs again)
+				var pre []byte
+				for fi := 0; fi < d.Fields().Len(); fi++ {
+					if fd := d.Fields().Get(fi); fd.Kind() == protoreflect.BytesKind && fd.Cardinality() != protoreflect.Repeated && fd.ContainingOneof() == nil {
+						pre = append(protowire.AppendTag(pre, fd.Number(), protowire.BytesType), 0)
+					}
+				}
+				concAny = &anypb.Any{TypeUrl: "/" + tn, Value: append(pre, SpecEncode(v)...)}
+				if deep {
+					concAny = nil
+				}
 				viewRes := make([]string, G)
 				results := make([][]string, G)
 				panics := make([]string, G)
@@ -245,7 +287,7 @@ func engineConc(rep *Report) {
 				}
 				rc := replayCase{Engine: "conc", Type: tn, Seed: *flagSeed, Index: round, Value: hx(SpecEncode(v))}
 				rep.Eval("C11", []byte(fmt.Sprintf("%s|%d|%x", tn, round, SpecEncode(v))), true)
-				rep.Count("C11", "goroutines", G)
+				rep.Count("C11", "goroutines", int64(G))
 				rep.Count("C11", "concurrent-op-executions", int64(G*len(ops)))
 				if round == 0 && len(rep.P("C11").Samples) < 3 {
 					names := []string{}
